@@ -139,6 +139,96 @@ class OnError(Part):
         return "K5" if mismatch.bucket == "onerror:K5" else None
 
 
+class Indirect(Part):
+    """The failure comes from code the on-error element does not evaluate
+    itself: a macro rendered in place, a used macro, a slot filler, the
+    translation function."""
+    name = "indirect"
+    examples = {"quick": 200, "thorough": 4000}
+
+    def strategy(self, tier):
+        from hypothesis import strategies as st
+        return st.fixed_dictionaries({
+            "kind": st.sampled_from(["inplace_macro", "use_macro",
+                                     "slot_filler", "translate",
+                                     "nested_control"]),
+            "cls": st.sampled_from(["ValueError", "KeyError", "OSError",
+                                    "CustomError", "RecursionError"]),
+            "attrs": st.sampled_from(["", ' class="c"', " id='i' title=\"t\""]),
+            "mode": st.sampled_from(["text", "structure"]),
+            "pre": st.sampled_from(["", "before ", "<b>x</b>"]),
+        })
+
+    def nontrivial(self, case):
+        return case["kind"] != "nested_control"
+
+    def labels(self, case):
+        yield case["kind"]
+
+    def oracle(self, case):
+        from chameleon import PageTemplate
+        cls = case["cls"]
+        fb = "string:<i>E</i>" if case["mode"] == "text" else \
+            "structure string:<i>E</i>"
+        oe = ' tal:on-error="%s"' % fb.replace("<", "&lt;")
+        exp_fb = "&lt;i&gt;E&lt;/i&gt;" if case["mode"] == "text" \
+            else "<i>E</i>"
+        a = case["attrs"]
+        pre = case["pre"]
+        env = {}
+        hlog = []
+        rec, boom = exprs.make_callables([])
+        env["boom"] = boom
+        cfg = {"on_error_handler": lambda e: hlog.append(type(e).__name__)}
+        k = case["kind"]
+        fail = "${boom('%s', 'T')}" % cls
+        if k == "inplace_macro":
+            src = ("<r>%s<div%s%s><p metal:define-macro=\"m\">x%s</p></div>"
+                   "after</r>" % (pre, a, oe, fail))
+        elif k == "use_macro":
+            env["lib"] = PageTemplate(
+                '<p metal:define-macro="m">x%s</p>' % fail)
+            src = ("<r>%s<div%s%s><p metal:use-macro=\"lib.macros['m']\">u"
+                   "</p></div>after</r>" % (pre, a, oe))
+        elif k == "slot_filler":
+            env["lib"] = PageTemplate(
+                '<p metal:define-macro="m">m<div%s%s><i metal:define-slot='
+                '"s">d</i></div>z</p>' % (a, oe), **cfg)
+            src = ("<r>%s<p metal:use-macro=\"lib.macros['m']\">"
+                   "<u metal:fill-slot=\"s\">f%s</u></p>after</r>" % (
+                       pre, fail))
+        elif k == "translate":
+            def translate(msgid, **kw):
+                # (the fallback of an element with i18n:translate="" is
+                # offered to the translation function as well)
+                if msgid == "static text":
+                    boom(cls, "T")
+                return kw.get("default") or msgid
+            cfg["translate"] = translate
+            src = ("<r>%s<div%s%s i18n:translate=\"\">static text</div>"
+                   "after</r>" % (pre, a, oe))
+        else:
+            src = ("<r>%s<div%s%s>x%s</div>after</r>" % (pre, a, oe, fail))
+        o = run(PageTemplate, src, **cfg)
+        if o.ok:
+            o = run(o.value.render, **env)
+        detail = {"source": src, "kind": k, "class": cls}
+        if not o.ok:
+            return Mismatch("indirect:%s propagates %s" % (k, o.exc_name),
+                            dict(detail, outcome=o.brief()))
+        if k == "slot_filler":
+            want = "<r>%s<p>m<div%s>%s</div>z</p>after</r>" % (pre, a, exp_fb)
+        else:
+            want = "<r>%s<div%s>%s</div>after</r>" % (pre, a, exp_fb)
+        if o.value != want:
+            return Mismatch("indirect:%s output differs" % k, dict(
+                detail, got=o.value, expected=want))
+        if hlog != [cls]:
+            return Mismatch("indirect:%s handler calls" % k, dict(
+                detail, handler=hlog))
+        return None
+
+
 CHECK = Check(
     "C13", "fault_enumeration",
     rule=("C01 templates with tal:on-error on random elements x planted "
@@ -147,7 +237,7 @@ CHECK = Check(
           "rarely, KeyboardInterrupt/SystemExit/RecursionError) x 9 fallback "
           "kinds, with a recording on_error_handler; non-trivial = the model "
           "handles at least one failure; distinct by sha1 of the case"),
-    parts=[OnError()],
+    parts=[OnError(), Indirect()],
     assumptions=[
         "fallback tags are emitted only when the element has no tal:omit-tag "
         "at all and is not in the tal namespace (characterisation)",
